@@ -37,9 +37,9 @@ ANCHORS = ['debian.debian_support:NativeVersion._compare',
 MUST_REACH = ['debian.debian_support:NativeVersion._compare', 'debian.debian_support:version_compare',
               'debian.debian_support:BaseVersion.__hash__']
 FLOORS = {'quick': {'nontrivial': 20000, 'monitors': {'M.pair': 100000, 'M.hash': 200, 'M.triple': 20000},
-                    'counters': {'pair:long-digit-run': 25000, 'pair:long-digit-run-both': 1400, 'rebind:value-replaced': 1500}},
+                    'counters': {'pair:long-digit-run': 25000, 'pair:long-digit-run-both': 1400, 'rebind:value-replaced': 1500, 'rebind:component-assigned': 4500, 'rebind:boundary-moved': 800, }},
           'thorough': {'nontrivial': 500000, 'monitors': {'M.pair': 4000000, 'M.hash': 1800, 'M.triple': 500000},
-                       'counters': {'pair:long-digit-run': 150000, 'pair:long-digit-run-both': 1400, 'rebind:value-replaced': 60000}}}
+                       'counters': {'pair:long-digit-run': 150000, 'pair:long-digit-run-both': 1400, 'rebind:value-replaced': 60000, 'rebind:component-assigned': 60000, 'rebind:boundary-moved': 6000}}}
 
 POOL = {'quick': 400, 'thorough': 2800}
 TRIPLES = {'quick': 120000, 'thorough': 3000000}
@@ -158,7 +158,17 @@ def cases(ctx):
     r = ctx.rng('rebind')
     for i in range(ctx.size(1600, 60000)):
         seq = [r.choice(pool) for _ in range(r.randint(2, 4))]
-        yield {'kind': 'rebind', 'seq': seq, 'bs': [r.choice(pool) for _ in range(4)] + r.sample(seq, 2)}
+        moves = []
+        for _ in range(8):
+            attr = r.choice(['epoch', 'upstream_version', 'debian_revision', 'debian_revision', 'epoch'])
+            if attr == 'epoch':
+                val = r.choice([None, None, '0', '1', '2'])
+            elif attr == 'debian_revision':
+                val = r.choice([None, None, '1', '0', '2-3', '1~'])
+            else:
+                val = r.choice(['1.0', '1.0-2', '2:7', '1-2-3', '0', '1:0-1'])
+            moves.append([attr, val])
+        yield {'kind': 'rebind', 'seq': seq, 'bs': [r.choice(pool) for _ in range(4)] + r.sample(seq, 2), 'moves': moves}
     r = ctx.rng('triples')
     for i in range(ctx.size(TRIPLES['quick'], TRIPLES['thorough']) // 50):
         yield {'kind': 'triples', 'vs': [r.choice(pool) for _ in range(52)]}
@@ -263,6 +273,26 @@ def run_case(ctx, case):
                 check_pair(ctx, cur, b, obj, ds.Version(b))
                 vb = ds.Version(b)
                 check_pair(ctx, b, cur, vb, obj)
+            # single-component assignments that MOVE the boundaries between epoch / upstream / revision (dropping the
+            # revision of '1.0-2-3' leaves '1.0-2' = upstream '1.0', revision '2'): the object orders and hashes like the
+            # string it now spells
+            for attr, val in case.get('moves', [])[n * 2:n * 2 + 2]:
+                naive = {'epoch': obj.epoch, 'upstream_version': obj.upstream_version, 'debian_revision': obj.debian_revision}
+                naive[attr] = val
+                try:
+                    setattr(obj, attr, val)
+                except ValueError:
+                    continue
+                now = str(obj)
+                if dpkgver.classify(now) != 'accept':
+                    continue
+                ctx.count('rebind:component-assigned')
+                fresh = ds.Version(now)
+                if (fresh.epoch, fresh.upstream_version, fresh.debian_revision) != (naive['epoch'], naive['upstream_version'], naive['debian_revision']):
+                    ctx.count('rebind:boundary-moved')      # the new string splits differently from "old parts with one replaced"
+                for b in bs[:3] + [now]:
+                    check_pair(ctx, now, b, obj, ds.Version(b))
+                obj.full_version = cur
     elif kind == 'window':
         for t in itertools.permutations(case['vs'], 3):
             check_triple(ctx, *t)
